@@ -1,4 +1,11 @@
-"""Comprehensions and generator expressions (special forms)."""
+"""Comprehensions and generator expressions.
+
+Default model ("havoc semantics", a sound over-approximation): the element expression and the filters
+are evaluated once for an ARBITRARY element of the iterable (so every safety obligation of one
+evaluation is generated, for all elements), they must be pure, and the result is an unconstrained
+fresh list of the element type.  Precise models exist for the shapes the contracts need:
+max/min over a filtered generator of dict keys, and a filtering dict comprehension.
+"""
 from __future__ import annotations
 
 import ast
@@ -7,18 +14,151 @@ import z3
 
 from . import sym
 from .state import EngineError, Raised, State
-from .sym import SV, TConst, TList
+from .sym import BOOL, CONST, INT, SV, TConst, TDict, TInt, TList, TNone, TOpt, TRef, TSet, TStr, TTuple
 
 
 class CompMixin:
-    def comprehension(self, e, st: State):
-        raise EngineError(f"comprehension not modelled: {ast.unparse(e)}")
+    def comp_element(self, gen, st: State):
+        """Evaluate the iterable of one generator -> [(state, elem SV bound to target in a scratch store)]"""
+        out = []
+        for s, it in self.ev(gen.iter, st):
+            if isinstance(it, Raised):
+                out.append((s, it, None))
+                continue
+            if isinstance(it.t, TConst):
+                try:
+                    it = self.reify(it)
+                except EngineError:
+                    pass
+            if isinstance(it.t, TOpt):
+                raise EngineError("comprehension over an Optional iterable")
+            if isinstance(it.extra, tuple) and it.extra and it.extra[0] == "dictitems":
+                d = it.extra[1]
+                k = sym.fresh(d.t.k, "ck")
+                v = SV(d.t.v, z3.Select(d.extra["val"], k.z))
+                s.assume(z3.Select(d.extra["has"], k.z))
+                out.append((s, it, sym.tup_mk([k, v]) if not isinstance(d.t.v, TDict) else None))
+                continue
+            if isinstance(it.t, TDict):
+                k = sym.fresh(it.t.k, "ck")
+                s.assume(z3.Select(it.extra["has"], k.z))
+                out.append((s, it, k))
+                continue
+            if isinstance(it.t, TList):
+                if it.t.elem is None:
+                    out.append((s, it, None))
+                    continue
+                x = sym.fresh(it.t.elem, "cx")
+                self.assume_wellformed(s, x)
+                if not isinstance(it.t.elem, (TRef,)):
+                    s.assume(z3.Contains(it.z, z3.Unit(x.z)))
+                out.append((s, it, x))
+                continue
+            if isinstance(it.t, TStr):
+                c = z3.Int(sym.fresh_name("cc"))
+                out.append((s, it, self.mk_char(s, c)))
+                continue
+            raise EngineError(f"comprehension over {it.t!r}")
+        return out
 
-    def dict_comprehension(self, e, st: State):
-        raise EngineError(f"dict comprehension not modelled: {ast.unparse(e)}")
+    def comprehension(self, e, st: State):
+        if len(e.generators) != 1 or e.generators[0].is_async:
+            raise EngineError(f"comprehension with several generators: {ast.unparse(e)}")
+        gen = e.generators[0]
+        if not all(self.is_pure_expr(c, st) for c in gen.ifs) or not self.is_pure_expr(e.elt, st):
+            raise EngineError(f"impure comprehension: {ast.unparse(e)}")
+        out = []
+        for s, it, x in self.comp_element(gen, st):
+            if isinstance(it, Raised):
+                out.append((s, it))
+                continue
+            if x is None:
+                out.append((s, SV(TList(None), None)))
+                continue
+            # scratch evaluation for an arbitrary element: obligations are generated on a copy so that the
+            # facts about the arbitrary element do not leak into the continuing path
+            sc = s.copy()
+            for s2, oc in self.assign(gen.target, x, sc):
+                if oc.kind != "normal":
+                    raise EngineError("comprehension target")
+                conds = []
+                for c in gen.ifs:
+                    r = self.ev_cond(c, s2)
+                    if len(r) != 1 or isinstance(r[0][1], Raised):
+                        raise EngineError(f"comprehension filter forks: {ast.unparse(c)}")
+                    s2 = r[0][0]
+                    s2.assume(r[0][1])
+                    conds.append(r[0][1])
+                r = self.ev(e.elt, s2)
+                if len(r) != 1 or isinstance(r[0][1], Raised):
+                    raise EngineError(f"comprehension element forks: {ast.unparse(e.elt)}")
+                elt = self.reify(r[0][1]) if isinstance(r[0][1].t, TConst) else r[0][1]
+            res = sym.fresh(TList(elt.t), "comp")
+            payload = ("listcomp", e, it, gen, dict(s.store))
+            out.append((s, SV(res.t, res.z, extra=payload)))
+        return out
 
     def materialize_comp(self, v, st):
-        raise EngineError("comprehension value")
+        return SV(v.t, v.z)
 
+    # ------------------------------------------------------------------
     def max_of_filter(self, v, st, node, is_max):
-        raise EngineError("max over comprehension")
+        """max(k for k in d if cond(k)) over the keys of a dict with int keys (precise)."""
+        _tag, e, it, gen, store = v.extra
+        if not (isinstance(it.t, TDict) and isinstance(it.t.k, TInt) and isinstance(e.elt, ast.Name)
+                and isinstance(gen.target, ast.Name) and e.elt.id == gen.target.id):
+            raise EngineError("max/min over this generator is not modelled")
+        has = it.extra["has"]
+
+        def cond(kz):
+            s2 = st.copy()
+            s2.store = dict(store)
+            s2.store[gen.target.id] = SV(INT, kz)
+            s2.spec = True
+            cs = [self.spec_bool(c, s2) for c in gen.ifs]
+            return z3.And(z3.Select(has, kz), *cs)
+
+        r = z3.Int(sym.fresh_name("max" if is_max else "min"))
+        q = z3.Int(sym.fresh_name("q"))
+        self.partial(st, z3.Exists([q], cond(q)), "ValueError", node, label=f"max() of empty sequence: {ast.unparse(e)}")
+        st.assume(cond(r))
+        st.assume(z3.ForAll([q], z3.Implies(cond(q), (q <= r) if is_max else (q >= r))))
+        return SV(INT, r)
+
+    def dict_comprehension(self, e, st: State):
+        """{k: v for k, v in d.items() if cond(k, v)}  (identity on keys and values; precise filter)."""
+        if len(e.generators) != 1:
+            raise EngineError("dict comprehension with several generators")
+        gen = e.generators[0]
+        out = []
+        for s, it in self.ev(gen.iter, st):
+            if isinstance(it, Raised):
+                out.append((s, it))
+                continue
+            if not (isinstance(it.extra, tuple) and it.extra and it.extra[0] == "dictitems"):
+                raise EngineError(f"dict comprehension over {ast.unparse(gen.iter)}")
+            d = it.extra[1]
+            tg = gen.target
+            if not (isinstance(tg, ast.Tuple) and len(tg.elts) == 2 and all(isinstance(x, ast.Name) for x in tg.elts)
+                    and isinstance(e.key, ast.Name) and isinstance(e.value, ast.Name)
+                    and e.key.id == tg.elts[0].id and e.value.id == tg.elts[1].id):
+                raise EngineError(f"dict comprehension shape: {ast.unparse(e)}")
+            ks = sym.sort_of(d.t.k)
+            q = z3.Const(sym.fresh_name("dk"), ks)
+
+            def cond(kz, s=s, d=d):
+                s2 = s.copy()
+                s2.store = dict(s.store)
+                s2.store[tg.elts[0].id] = SV(d.t.k, kz)
+                s2.store[tg.elts[1].id] = SV(d.t.v, z3.Select(d.extra["val"], kz))
+                s2.spec = True
+                return z3.And(*[self.spec_bool(c, s2) for c in gen.ifs]) if gen.ifs else z3.BoolVal(True)
+
+            new = sym.fresh(d.t, "dcomp")
+            s.assume(z3.ForAll([q], z3.Select(new.extra["has"], q) == z3.And(z3.Select(d.extra["has"], q), cond(q))))
+            s.assume(z3.ForAll([q], z3.Implies(z3.Select(new.extra["has"], q),
+                                               z3.Select(new.extra["val"], q) == z3.Select(d.extra["val"], q))))
+            s.assume(z3.ForAll([q], z3.Select(new.extra["has"], q) == z3.Contains(new.extra["keys"], z3.Unit(q))))
+            s.assume(z3.Length(new.extra["keys"]) <= z3.Length(d.extra["keys"]))
+            out.append((s, new))
+        return out
